@@ -37,13 +37,17 @@ var solvers = []solverSpec{
 		return []string{"z3", "-smt2", fmt.Sprintf("-T:%d", t), fmt.Sprintf("smt.random_seed=%d", seed), f}
 	}},
 	{"cvc5", func(t, seed int, f string) []string {
-		return []string{"cvc5", fmt.Sprintf("--tlimit=%d", t*1000), fmt.Sprintf("--seed=%d", seed), "--produce-models", f}
+		return []string{"cvc5", fmt.Sprintf("--tlimit=%d", t*1000), fmt.Sprintf("--seed=%d", seed), "--produce-models", "--strings-exp", f}
 	}},
 }
 
 func runSolver(sp solverSpec, timeoutS, seed int, file string) (status, out string, ms int64) {
+	return runSolverCtx(context.Background(), sp, timeoutS, seed, file)
+}
+
+func runSolverCtx(parent context.Context, sp solverSpec, timeoutS, seed int, file string) (status, out string, ms int64) {
 	args := sp.args(timeoutS, seed, file)
-	ctx, cancel := context.WithTimeout(context.Background(), time.Duration(timeoutS+2)*time.Second)
+	ctx, cancel := context.WithTimeout(parent, time.Duration(timeoutS+2)*time.Second)
 	defer cancel()
 	cmd := exec.CommandContext(ctx, args[0], args[1:]...)
 	var buf bytes.Buffer
@@ -75,9 +79,15 @@ func solve(query string, file string, timeoutS, seed int, thorough bool) *SolveR
 	}
 	res := &SolveResult{Status: "unknown", Query: file, Agree: true}
 	order := solvers
-	if seed%2 == 1 && !thorough {
+	if strings.Contains(query, "(str.") {
+		// SMT string goals: cvc5 decides what the z3s time out on
+		order = []solverSpec{solvers[2], solvers[0], solvers[1]}
+	} else if seed%2 == 1 && !thorough {
 		// seed only changes launch order / random seeds, not results claimed
 		order = []solverSpec{solvers[0], solvers[2], solvers[1]}
+	}
+	if strings.Contains(query, "(str.") {
+		return raceSolvers(res, order, timeoutS, seed, file, thorough)
 	}
 	for _, sp := range order {
 		st, out, ms := runSolver(sp, timeoutS, seed, file)
@@ -97,6 +107,49 @@ func solve(query string, file string, timeoutS, seed int, thorough bool) *SolveR
 				return res
 			}
 		} else if st != res.Status {
+			res.Agree = false
+		}
+	}
+	return res
+}
+
+// raceSolvers runs the solvers concurrently (SMT-string goals: which solver decides a
+// goal varies, and the losers would otherwise burn their whole timeout first). Quick:
+// the first definite answer wins and the rest are cancelled; thorough: all run to the
+// end and must agree.
+func raceSolvers(res *SolveResult, order []solverSpec, timeoutS, seed int, file string, thorough bool) *SolveResult {
+	type ans struct {
+		name, st, out string
+		ms            int64
+	}
+	ctx, cancel := context.WithCancel(context.Background())
+	defer cancel()
+	ch := make(chan ans, len(order))
+	for _, sp := range order {
+		sp := sp
+		go func() {
+			st, out, ms := runSolverCtx(ctx, sp, timeoutS, seed, file)
+			ch <- ans{sp.name, st, out, ms}
+		}()
+	}
+	for range order {
+		a := <-ch
+		res.Tried = append(res.Tried, fmt.Sprintf("%s:%s:%dms", a.name, a.st, a.ms))
+		if a.st == "unknown" {
+			if res.Output == "" {
+				res.Output = a.out
+			}
+			continue
+		}
+		if res.Status == "unknown" {
+			res.Status, res.Solver, res.Millis, res.Output = a.st, a.name, a.ms, a.out
+			if a.st == "sat" {
+				res.Model = a.out
+			}
+			if !thorough {
+				return res
+			}
+		} else if a.st != res.Status {
 			res.Agree = false
 		}
 	}
